@@ -27,6 +27,7 @@ META = {
 }
 META["explanation"] += ' R02.1 (closed test and waker push in one critical section) is evaluated here as part of R20.6: a waker parked after close() is never drained and keeps a state -> waker -> task -> subscriber -> state cycle alive.'
 META["explanation"] += " R20.6 only the state's waker list may hold a Waker: no handle type (Subscriber, its lock-flavour states) has a field whose type contains std::task::Waker."
+META["explanation"] += ' Shared with C19: R19.9 (type ledger: only the counted handles own a strong state reference - a WeakObservable or a guard that owns one keeps the value alive and closes reference cycles) and R19.11 (no hidden handle moved into a returned future / closure).'
 
 RAW = (r"^std::mem::forget$|ManuallyDrop::<.*>::(new|take|drop|into_inner)$|Box::<.*>::(into_raw|from_raw|leak|into_non_null|from_non_null)$|"
        r"Arc::<.*>::(into_raw|from_raw|increment_strong_count|decrement_strong_count)$|Rc::<.*>::(into_raw|from_raw)$|Weak::<.*>::(into_raw|from_raw)$|"
@@ -85,6 +86,12 @@ def run(ctx):
     leaf.check_critical_section(ctx, "R02.1")
     r20_6b(ctx)
     r20_7(ctx)
+    # who may keep the state alive: only the counted handles own a strong reference. A "weak" handle, a guard or a helper type that
+    # owns one keeps the value (and everything it refers to - e.g. a weak back-reference to its own observable) alive: a cycle leaks
+    if EY in F.crates:
+        from . import c19
+        c19.r19_9(ctx)
+        c19.r19_11(ctx)
 
 
 def r20_1(ctx):
